@@ -137,3 +137,119 @@ pub fn ghw(toks: &[&str]) -> String {
 pub fn wavedump(toks: &[&str]) -> String {
     wave_dump(hex_bytes(toks[1]), false)
 }
+
+// ---------------------------------------------------------------------------------------------
+// C12: the format-independent observation of a waveform: tree (names, nesting, order, widths) and, per
+// variable, the value at every time (time in fs; the last value of a time step; unchanged steps dropped)
+
+fn scale_fs(h: &Hierarchy) -> u128 {
+    use wellen::TimescaleUnit::*;
+    match h.timescale() {
+        None => 1,
+        Some(ts) => {
+            let exp = match ts.unit {
+                FemtoSeconds => 0,
+                PicoSeconds => 3,
+                NanoSeconds => 6,
+                MicroSeconds => 9,
+                MilliSeconds => 12,
+                Seconds => 15,
+                Unknown => 0,
+            };
+            ts.factor as u128 * 10u128.pow(exp)
+        }
+    }
+}
+
+fn obs_changes(s: &wellen::Signal, tt: &[u64], sc: u128) -> String {
+    let mut out: Vec<(u128, String)> = vec![];
+    for (idx, v) in s.iter_changes() {
+        let t = tt[idx as usize] as u128 * sc;
+        let vs = match v {
+            wellen::SignalValue::Real(r) => format!("r{:016x}", r.to_bits()),
+            wellen::SignalValue::String(s) => format!("s{}", to_hex(s.as_bytes())),
+            other => other.to_bit_string().unwrap(),
+        };
+        if let Some(last) = out.last_mut() {
+            if last.0 == t {
+                last.1 = vs;
+                continue;
+            }
+        }
+        out.push((t, vs));
+    }
+    let mut canon: Vec<String> = vec![];
+    let mut prev: Option<String> = None;
+    for (t, v) in out {
+        if prev.as_ref() != Some(&v) {
+            canon.push(format!("{t}={v}"));
+            prev = Some(v);
+        }
+    }
+    if canon.is_empty() {
+        "-".to_string()
+    } else {
+        canon.join("/")
+    }
+}
+
+fn obs_walk<'a>(h: &'a Hierarchy, sigs: &HashMap<SignalRef, String>, items: impl Iterator<Item = HierarchyItem<'a>>, out: &mut String) {
+    let mut first = true;
+    for item in items {
+        if !first {
+            out.push(',');
+        }
+        first = false;
+        match item {
+            HierarchyItem::Scope(s) => {
+                out.push_str(&format!("S({})", hex_or_dash(s.name(h).as_bytes())));
+                out.push('{');
+                obs_walk(h, sigs, s.items(h), out);
+                out.push('}');
+            }
+            HierarchyItem::Var(v) => {
+                let w = match v.signal_encoding() {
+                    SignalEncoding::String => "string".to_string(),
+                    SignalEncoding::Real => "real".to_string(),
+                    SignalEncoding::BitVector(l) => l.get().to_string(),
+                };
+                out.push_str(&format!(
+                    "V({},{},{})",
+                    hex_or_dash(v.name(h).as_bytes()),
+                    w,
+                    sigs.get(&v.signal_ref()).cloned().unwrap_or("?".to_string())
+                ));
+            }
+        }
+    }
+}
+
+pub fn observe(bytes: Vec<u8>) -> String {
+    let o = LoadOptions { multi_thread: false, remove_scopes_with_empty_name: false };
+    let header = match viewers::read_header(std::io::Cursor::new(bytes), &o) {
+        Ok(h) => h,
+        Err(_) => return "err".to_string(),
+    };
+    let body = match viewers::read_body(header.body, &header.hierarchy, None) {
+        Ok(b) => b,
+        Err(_) => return "err".to_string(),
+    };
+    let h = header.hierarchy;
+    let mut refs: Vec<SignalRef> = h.iter_vars().map(|v| v.signal_ref()).collect();
+    refs.sort();
+    refs.dedup();
+    let sc = scale_fs(&h);
+    let mut source = body.source;
+    let mut sigs = HashMap::new();
+    for (r, s) in source.load_signals(&refs, &h, false) {
+        sigs.insert(r, obs_changes(&s, &body.time_table, sc));
+    }
+    let mut out = String::new();
+    obs_walk(&h, &sigs, h.items(), &mut out);
+    out
+}
+
+/// `pairhex <design> <file a hex> <file b hex>`: `<observation a>#<observation b>`
+pub fn pairhex(toks: &[&str]) -> String {
+    format!("{}#{}", observe(hex_bytes(toks[2])), observe(hex_bytes(toks[3])))
+}
